@@ -43,7 +43,8 @@ ASSUMPTIONS = [
     "one column has one numeric kind; columns mixing kinds are a separate class judged by numerical equality only, "
     "with integers bounded by 2**53 so that NumPy's own int->float promotion is exact",
     "strings are printable ASCII or Latin-1/BMP text without NUL (NumPy fixed-width strings cannot hold trailing NUL)",
-    "flag classes use auto() values only (dense bit positions, as armi.reactor.flags.Flags)",
+    "flag classes mix auto() and explicit single-bit values such that bit positions are dense overall (what "
+    "Flag.width()/to_bytes and FlagSerializer._remapBits need; as armi.reactor.flags.Flags and defineFlags plugins do)",
     "l2_reactor keeps integers below 2**63: Database._readParams hands Python lists to the parameter setters and the "
     "ndarray setters of real parameters (np.array(value)) turn a mix of int64- and uint64-sized ints into float64; that "
     "is the setter's doing, not the encoding (l0/l1 cover the whole uint64 range)",
@@ -1367,6 +1368,21 @@ def l2_execute(case):
 # part flags: FlagSerializer._packImpl -> HDF5 -> _unpackImpl with two fresh Flag classes
 
 
+def _flag_spec():
+    """How the fields of one Flag class are registered: class body first, then extend() calls."""
+    return st.fixed_dictionaries(
+        {
+            # number of fields in the class body, then in each extend() call (cycled; at most 4 calls)
+            "sizes": st.lists(st.integers(1, 6), min_size=1, max_size=4),
+            "bodyAll": st.booleans(),  # True: every field in the class body (no extend() call)
+            # which fields get an explicit single-bit value instead of auto() (cycled over the fields)
+            "explicit": _weighted((2, st.just([False])), (3, st.lists(st.booleans(), min_size=1, max_size=8)), (1, st.just([True]))),
+            "perm": st.lists(st.integers(0, 1000), min_size=1, max_size=6),  # which bit of the call's window each explicit field takes
+            "split": st.booleans(),  # explicit and auto() fields of one window through two extend() calls
+        }
+    )
+
+
 def flags_strategy(tier):
     k = st.integers(1, 70)
     return st.fixed_dictionaries(
@@ -1374,10 +1390,12 @@ def flags_strategy(tier):
             "k": st.one_of(st.integers(1, 12), k),
             "wperm": st.lists(st.integers(0, 1000), min_size=1, max_size=12),
             "rperm": st.one_of(st.none(), st.lists(st.integers(0, 1000), min_size=1, max_size=12)),
-            "mode": st.sampled_from(["same-class", "same-order", "permuted", "permuted", "extended", "extended"]),
+            "mode": st.sampled_from(["same-class", "same-order", "permuted", "permuted", "extended", "extended", "extended"]),
             "extra": st.integers(0, 12),
             "extraLate": st.booleans(),
             "drop": st.lists(st.integers(0, 69), max_size=4),
+            "wspec": _flag_spec(),
+            "rspec": _flag_spec(),
             "values": st.lists(st.one_of(st.integers(0, 2**70), st.integers(0, 255), st.integers(0, 6).map(lambda b: 1 << b)), min_size=1, max_size=12),
         }
     )
@@ -1390,10 +1408,82 @@ def _order(names, perm):
     return [names[i] for i in idx]
 
 
+def _build_flag_class(clsname, names, spec, tail=()):
+    """A fresh Flag class whose fields ``names`` (+ ``tail``, always through a last extend() of auto() fields) are
+    registered as ``spec`` says.
+
+    Every registration call covers a *window* of the next len(call) bit positions; the explicit fields of the call take
+    bits of that window (in any order, so registration order and numeric order differ), the auto() fields are left to
+    armi.  As auto() hands out the lowest unused values, the class stays dense after every window: explicit values are
+    single bits, never collide and never leave a hole (what armi.reactor.flags.Flags and defineFlags plugins do).
+    Returns (class, info).
+    """
+    from armi.utils.flags import Flag, auto
+
+    names = list(names)
+    chunks = []
+    if spec["bodyAll"] or not names:
+        chunks.append(names)
+    else:
+        sizes = spec["sizes"]
+        i = j = 0
+        while i < len(names):
+            n = sizes[j % len(sizes)] if j < 4 else len(names) - i
+            chunks.append(names[i : i + n])
+            i += n
+            j += 1
+    info = {"explicit": 0, "explicitLate": 0, "calls": 0, "nextFreeBit": False}
+    cls = None
+    m = 0
+    fi = 0
+    for ci, chunk in enumerate(chunks):
+        s_ = len(chunk)
+        expl = [bool(spec["explicit"][(fi + t) % len(spec["explicit"])]) for t in range(s_)]
+        fi += s_
+        offsets = _order(list(range(s_)), spec["perm"])
+        fields = {}
+        taken = []
+        for nm, e in zip(chunk, expl):
+            if e:
+                off = offsets[len(taken)]
+                taken.append(off)
+                fields[nm] = 1 << (m + off)
+            else:
+                fields[nm] = auto()
+        info["explicit"] += len(taken)
+        if ci == 0:
+            cls = type(Flag)(clsname, (Flag,), dict(fields))
+        else:
+            info["explicitLate"] += len(taken)
+            if taken and min(taken) == 0:
+                info["nextFreeBit"] = True
+            ex = {k_: v for k_, v in fields.items() if isinstance(v, int)}
+            au = {k_: v for k_, v in fields.items() if not isinstance(v, int)}
+            if spec["split"] and ex and au:
+                cls.extend(ex)
+                cls.extend(au)
+                info["calls"] += 2
+            else:
+                cls.extend(fields)
+                info["calls"] += 1
+        m += s_
+    if tail:
+        cls.extend({nm: auto() for nm in tail})  # the way plugins extend the flags after definition
+        info["calls"] += 1
+    return cls, info
+
+
+def _bits_state(cls):
+    """'dense' / 'sparse' / 'collide' for the values of a Flag class."""
+    vals = sorted(cls.fields().values())
+    if len(set(vals)) != len(vals):
+        return "collide"
+    return "dense" if vals == [1 << i for i in range(len(vals))] else "sparse"
+
+
 def flags_execute(case):
     np = _np()
     from armi.reactor.composites import FlagSerializer
-    from armi.utils.flags import Flag, auto
 
     from armi.bookkeeping.db.database import Database
 
@@ -1401,33 +1491,59 @@ def flags_execute(case):
     k = case["k"]
     base = ["F%02d" % i for i in range(k)]
     wnames = _order(base, case["wperm"])
-    W = type(Flag)("C05Writer", (Flag,), {nm: auto() for nm in wnames})
+    W, winfo = _build_flag_class("C05Writer", wnames, case["wspec"])
     mode = case["mode"]
-    late = []
+    rinfo = winfo
+    dropped = set()
     if mode == "same-class":
         R = W
-        rnames = list(wnames)
     else:
+        late = []
         if mode == "same-order":
             rnames = list(wnames)
         else:
             rnames = _order(wnames, case["rperm"] or [3, 1, 2])
         if mode == "extended":
-            drop = {wnames[d % k] for d in case["drop"]}
-            rnames = [nm for nm in rnames if nm not in drop]  # unknown to the reader: added on the fly
+            dropped = {wnames[d % k] for d in case["drop"]}
+            rnames = [nm for nm in rnames if nm not in dropped]  # unknown to the reader: added on the fly by unpack
             extra = ["X%02d" % i for i in range(case["extra"])]
             if case["extraLate"]:
                 late = extra
             else:
                 rnames = _order(rnames + extra, case["rperm"])
-        R = type(Flag)("C05Reader", (Flag,), {nm: auto() for nm in rnames})
-        if late:
-            R.extend({nm: auto() for nm in late})  # the way plugins extend the flags after definition
+        rspec = case["wspec"] if mode == "same-order" else case["rspec"]
+        R, rinfo = _build_flag_class("C05Reader", rnames, rspec, tail=late)
     out.label("mode:" + mode, "width:%d" % W.width())
+    # documented: extend() keeps the values unique (I_ARMI_FLAG_EXTEND0); dense positions are what width()/to_bytes need
+    for who, cls in (("writer", W), ("reader", R)):
+        state = _bits_state(cls)
+        if state == "collide":
+            out.fail("flags/extend-values-collide", "%s class built through the class body + extend() has colliding values: %r"
+                     % (who, sorted(cls.fields().items(), key=lambda kv: kv[1])))
+            return out
+        if state == "sparse":
+            out.label("skipped:%s-bits-not-dense" % who)
+            return out
+    if winfo["explicit"]:
+        out.label("explicit-values:writer")
+    if rinfo["explicit"] and R is not W:
+        out.label("explicit-values:reader")
+    if rinfo["explicitLate"] and R is not W:
+        out.label("explicit-through-extend:reader")
+    for who, cls in (("writer", W), ("reader", R)):
+        if [nm for nm, _v in sorted(cls.fields().items(), key=lambda kv: kv[1])] != list(cls.fields()) and (who == "writer" or R is not W):
+            out.label("%s-registration-order-not-numeric" % who)
+    if dropped:
+        out.label("unknown-to-reader")
+        if rinfo["explicitLate"]:
+            out.label("unknown-to-reader+explicit-through-extend")
+            if rinfo["nextFreeBit"]:
+                out.label("unknown-to-reader+explicit-on-next-free-bit")
     masks = [v % (1 << k) for v in case["values"]]
     written = [sorted(nm for nm, val in W.fields().items() if m & val) for m in masks]
     data = [W(m) for m in masks]
-    reordered = R is not W and R.sortedFields()[: len(wnames)] != W.sortedFields()
+    rf = R.fields()
+    reordered = R is not W and any(rf.get(nm) != val for nm, val in W.fields().items())
     out.nontrivial = reordered and any(masks)
     if reordered:
         out.label("bit-positions-differ")
@@ -1450,11 +1566,13 @@ def flags_execute(case):
     out.check(len(back) == len(data) and all(isinstance(b, R) for b in back), "flags/count-or-type",
               lambda: "%d values written, read %r" % (len(data), back))
     read = [sorted(nm for nm, val in R.fields().items() if int(b) & val) for b in back]
-    out.check(read == written, "flags/names-changed", lambda: "writer order %r reader order %r: written %r read %r"
-              % (W.sortedFields(), R.sortedFields(), written, read))
-    vals = sorted(R.fields().values())
-    out.check(vals == [1 << i for i in range(len(vals))], "flags/reader-bits-not-dense",
-              lambda: "reader class values after unpack %r" % (vals,))
+    out.check(read == written, "flags/names-changed", lambda: "writer fields %r reader fields %r: written %r read %r"
+              % (sorted(W.fields().items(), key=lambda kv: kv[1]), sorted(R.fields().items(), key=lambda kv: kv[1]), written, read))
+    state = _bits_state(R)
+    out.check(state != "collide", "flags/reader-bits-collide",
+              lambda: "reader class values after unpack %r" % (sorted(R.fields().items(), key=lambda kv: kv[1]),))
+    out.check(state != "sparse", "flags/reader-bits-not-dense",
+              lambda: "reader class values after unpack %r" % (sorted(R.fields().values()),))
     return out
 
 
@@ -1485,8 +1603,10 @@ PARTS = [
               "objects matched by name path; non-trivial as in l0_pack and >= 2 objects; oracle: documented normal form equal"),
     Part("flags", flags_execute, strategy=flags_strategy, budget={"quick": 1000, "thorough": 30000},
          procs={"quick": 2, "thorough": 8},
-         rule="Hypothesis: two fresh armi.utils.flags.Flag classes with 1-70 auto() fields; reader = same class / same order / "
-              "permutation / permutation with dropped and added fields (added at definition or through extend()); 1-12 flag values; "
-              "_packImpl -> HDF5 dataset + flag_order attribute -> _unpackImpl; non-trivial = bit positions differ and a value is "
-              "non-zero; oracle: set of flag names of every value preserved"),
+         rule="Hypothesis: two fresh armi.utils.flags.Flag classes with 1-70 fields mixing auto() and explicit single-bit values "
+              "(dense overall; explicit values registered out of numeric order; fields given in the class body and through 0-5 "
+              "extend() calls, explicit ones on the next free bit or further up); reader = same class / same order / permutation / "
+              "permutation with dropped (unknown to the reader, added by unpack) and added fields; 1-12 flag values; _packImpl -> HDF5 "
+              "dataset + flag_order attribute -> _unpackImpl; non-trivial = some flag sits on another bit in the reader and a value is "
+              "non-zero; oracle: set of flag names of every value preserved, class values stay unique (and dense)"),
 ]
